@@ -43,6 +43,8 @@ def action_class(body_, engine):
 
 
 def run(ck, facts, tier):
+    from shared import zippers
+    zippers.answer_subst(ck, facts, "C04.ANSWER-SUBST")
     R = "C04.CLAUSE-SOURCES"
     ck.rule(R, "K5: build_table and solve_from_clauses both use exactly {program_clauses_that_could_match, custom_clauses, "
                "program_clauses_for_env(&goal.environment)}, apply the could_match filter to all three, and map Err(Floundered) to "
